@@ -808,7 +808,13 @@ pub fn sched(args: &[String]) {
         FAMILY.with(|f| f.set(0));
         // every other pawn storm starts a few plies before the move-count draw: the clocks of the tasks'
         // private boards must stay in step, or one cache key gets two values
-        let root_hm: u64 = if pi % 4 == 3 { 93 + rng.below(5) as u64 } else { 0 };
+        let root_hm: u64 = if pi % 4 == 3 {
+            93 + rng.below(5) as u64
+        } else if pi % 4 == 2 {
+            95 + rng.below(4) as u64 // ordinary sparse roots with the draw by move count inside the horizon
+        } else {
+            0
+        };
         let mut b0 = pos.setup();
         let t0 = b0.turn();
         let nroot = MoveGenerator::with_cache_capacity(16).generate_moves(&mut b0, t0).len();
